@@ -14,6 +14,7 @@ import (
 func init() {
 	streams["render"] = &stream{gen: genRender, run: runRender}
 	streams["strunit"] = &stream{gen: genStrUnit, run: runStrUnit}
+	streams["rerender"] = &stream{gen: genRerender, run: runRerender}
 }
 
 var leafTexts = []string{"a", "b", "cn", "é", "日本", "x y", " lead", "trail ", "two  blanks", "tab\there", "", " nb", "nl\n", "(", "&", "AND", "ü\t ö"}
@@ -179,4 +180,65 @@ func runStrUnit(payload string) string {
 		return "S" + hx(stackage.VerifCall("encapValue", c.Enc, unhx(t[2]))[0].(string))
 	}
 	return "BADOP"
+}
+
+// rerender (C02): the same tree rendered repeatedly while presentation options are switched in between
+// (on the root "." or on a direct child by index): String() must follow the *current* options every time.
+func genRerender(r *rand.Rand, id string, tier string) string {
+	t := genRenderStack(r, 1+r.Intn(2), []int{1, 2, 3, 4}[r.Intn(4)])
+	var ops []string
+	ops = append(ops, "render")
+	for i, n := 0, 2+r.Intn(6); i < n; i++ {
+		target := "."
+		if len(t.Xs) > 0 && r.Intn(2) == 0 {
+			target = fmt.Sprint(r.Intn(len(t.Xs)))
+		}
+		switch r.Intn(5) {
+		case 0:
+			ops = append(ops, "render")
+		default:
+			ops = append(ops, fmt.Sprintf("opt %s %s %s", target, []string{"paren", "fold", "nopad", "lonce"}[r.Intn(4)], []string{"0", "1", "t"}[r.Intn(3)]))
+			ops = append(ops, "render")
+		}
+	}
+	return t.String() + " | " + strings.Join(ops, " ; ")
+}
+
+func runRerender(payload string) string {
+	parts := strings.SplitN(payload, " | ", 2)
+	v, _ := parseV(strings.Fields(parts[0]))
+	s := BuildStack(v)
+	var outs []string
+	for _, op := range strings.Split(parts[1], " ; ") {
+		t := strings.Fields(op)
+		switch t[0] {
+		case "render":
+			outs = append(outs, "S"+hx(s.String()))
+		case "opt":
+			tgt := s
+			ok := true
+			if t[1] != "." {
+				x, _ := s.Index(atoi64(t[1]))
+				tgt, ok = stackage.ConvertStack(x)
+			}
+			if ok {
+				var st []bool
+				if t[3] != "t" {
+					st = []bool{t[3] == "1"}
+				}
+				switch t[2] {
+				case "paren":
+					tgt.SetParen(st...)
+				case "fold":
+					tgt.SetFold(st...)
+				case "nopad":
+					tgt.SetNoPadding(st...)
+				case "lonce":
+					tgt.SetLeadOnce(st...)
+				}
+			}
+			outs = append(outs, "-")
+		}
+	}
+	return strings.Join(outs, " ; ")
 }
